@@ -11,7 +11,7 @@ MUT = "/tmp/mut"
 SEED_OUT = os.environ.get("SEED_OUT", os.path.join(VERIF, "seeded"))
 ALL = ["C%02d" % i for i in range(1, 21)]
 EXTRA = {"C13-a": ["-DCAT_UNSOLICITED_CMD_BUFFER_SIZE=3"], "C15-a": ["-DCAT_UNSOLICITED_CMD_BUFFER_SIZE=2"],
-         "C17-a": ["-pthread"], "C17-b": ["-pthread"]}
+         "C17-a": ["-pthread"], "C17-b": ["-pthread"], "C17-c": ["-pthread"], "C17-d": ["-pthread"]}
 
 
 def sh(cmd, **kw):
